@@ -1,3 +1,4 @@
+import SakuraVerif.Lemmas.DumpWalk
 import SakuraVerif.Lemmas.Dump
 /-! # C20 — the dump lists every event at its true position
 
@@ -59,5 +60,47 @@ theorem C20_position_roundtrip (tb frac deno m b t : Nat) (hm : 1 ≤ m) (hb : 1
 
 -- non-vacuity: 4/4 at time base 96, TIME(3:2:10)
 example : dumpPos 96 4 4 (((3 - 1) * 4 + (2 - 1)) * (96 * 4 / 4) + 10) = (3, 2, 10) := by decide
+
+/-! ## the literal dump (`Model.DumpText`, tied to the real text character for character by the stream `dumptext`) -/
+open Sakura.Dt in
+/-- **every event, once, in order, at its true position**: on the bytes of any track whose events are well-formed messages
+    (`Dt.WF`: channel messages of every kind, meta events, SysEx; any deltas) and end with End-of-Track, the loop of `dump_midi`
+    prints exactly the lines `absLines` — one per event, in file order, each at the running sum of the delta times under the
+    signature in force, showing kind and values as written (`textOf`) — and stops exactly at the end of the track body. -/
+theorem C20_walker_lists_every_event (tb : Nat) (evs : List (Nat × Spec.Msg)) (hw : ∀ e ∈ evs, WF e.2) (pre post : List Nat) (info : Info)
+    (heot : (updAll info evs).eot = true) (ht : total evs < 18446744073709551616) (f : Nat) (hf : evs.length + 1 ≤ f) :
+    trackGo (pre ++ (encTrack evs ++ post)) tb f pre.length (pre.length + (encTrack evs).length) 0 info [] =
+      (absLines tb info 0 evs, pre.length + (encTrack evs).length, updAll info evs) :=
+  trackGo_enc tb evs hw pre post info heot ht f hf
+
+open Sakura.Dt in
+/-- a line's position is `dumpPos` of the event's absolute time — with `C20_position_roundtrip`: a note placed with TIME(m:b:t)
+    is listed at TIME(m:b:t) -/
+theorem C20_line_position (tb : Nat) (info : Info) (m b t : Nat) (txt : String) (htb : 0 < tb) (hd : 0 < info.deno)
+    (hm : 1 ≤ m) (hb : 1 ≤ b) (hbf : b ≤ info.frac) (hbb : 0 < tb * 4 / info.deno) (ht : t < tb * 4 / info.deno) :
+    lineOf tb info (((m - 1) * info.frac + (b - 1)) * (tb * 4 / info.deno) + t) txt = s!"TIME({pad3 m}:{pad3 b}:{pad3 t}) {txt}" := by
+  rw [lineOf_dumpPos tb info _ txt htb hd, C20_position_roundtrip tb info.frac info.deno m b t hm hb hbf hbb ht]
+
+open Sakura.Dt in
+/-- **the dump terminates on every byte string** (compiler output or not): each pass of the track loop consumes at least one byte -/
+theorem C20_dump_loop_terminates (b : List Nat) (tb pos E time : Nat) (info : Info) (acc : List String) (f : Nat)
+    (hf : b.length - pos + 1 ≤ f) :
+    trackGo b tb f pos E time info acc = trackGo b tb (b.length - pos + 1) pos E time info acc :=
+  trackGo_fuel_stable b tb (b.length - pos) pos E time info acc f _ (Nat.le_refl _) hf (Nat.le_refl _)
+
+-- non-vacuity: a track with a time signature, a program change, a bend, a note, a text meta, a SysEx and End-of-Track
+open Sakura.Dt in
+def demoTrack : List (Nat × Spec.Msg) :=
+  [(0, .metaM 0x58 [3, 3, 24, 8]), (0, .prog 2 40), (10, .bend 2 0 64), (200, .noteOn 2 60 100), (16383, .noteOff 2 60 0),
+   (0, .metaM 3 [97, 98]), (5, .sysex [0x41, 0x10, 0xF7]), (0, .metaM 0x2F [])]
+
+open Sakura.Dt in
+example : (∀ e ∈ demoTrack, WF e.2) ∧ (updAll {} demoTrack).eot = true ∧ total demoTrack < 18446744073709551616 := by
+  refine ⟨?_, by decide, by decide⟩
+  intro e he
+  simp only [demoTrack, List.mem_cons, List.not_mem_nil, or_false] at he
+  rcases he with rfl | rfl | rfl | rfl | rfl | rfl | rfl | rfl
+  all_goals first | (simp only [WF]; omega) | (simp only [WF]; decide) | skip
+  all_goals (simp only [WF]; refine ⟨by decide, [0x41, 0x10], rfl, by decide⟩)
 
 end Sakura.Props.C20
